@@ -20,6 +20,7 @@ mod props;
 mod refdec;
 mod refgen;
 mod rng;
+mod selftest;
 mod runner;
 mod types;
 mod vol;
@@ -261,6 +262,7 @@ fn main() {
                 }
             }
         }
+        "selftest" => std::process::exit(selftest::run()),
         "replay-batch" => {
             let path = args.get(2).cloned().unwrap_or_else(|| usage());
             c19::child_replay_batch(&path);
